@@ -152,6 +152,8 @@ class IntrospectablePass(object):
             return False
         if isinstance(typeval, ast.TypeUnknown):
             return False
+        if isinstance(typeval, ast.Varargs):
+            return False
         if isinstance(typeval, (ast.Array, ast.List)):
             return self._type_is_introspectable(typeval.element_type)
         elif isinstance(typeval, ast.Map):
